@@ -200,6 +200,17 @@ func (g *G) addField(parent *tsys.Def, fd *m.FieldDef, depth int, sc *scope, out
 		s.Alias = g.alias("a")
 		rn = s.Alias
 	}
+	if !g.inFrag && g.r.Chance(1, 6) {
+		// an alias that is the NAME of another field of the same parent (response names and field names live in
+		// different spaces: `{ name: id }` selects id)
+		if sib := g.outFields(parent); len(sib) > 1 {
+			o := sib[g.r.Intn(len(sib))]
+			if _, taken := sc.used[o.Name]; o.Name != fd.Name && !taken {
+				s.Alias = o.Name
+				rn = s.Alias
+			}
+		}
+	}
 	if prev, clash := sc.used[rn]; clash {
 		// deliberate mergeable overlap: the same field with the same arguments; sub-selections share a scope
 		if prev.Name != fd.Name {
